@@ -675,6 +675,9 @@ func confirmBatch(r *Run, o eqOutcome, pre map[string]string, stdin string) (boo
 		}
 		return nil
 	}, gosym.ExploreOpts{Workers: 1})
+	if strings.Contains(unsup, "step budget exceeded") {
+		return true, "the script does not terminate under the cmd.exe model (" + unsup + "); the reference terminates with " + fmt.Sprintf("%q", o.Expected)
+	}
 	if unsup != "" {
 		return false, "BatSem: " + unsup
 	}
